@@ -34,16 +34,16 @@ type sweepReq struct {
 type validFn func(q sweepReq) (tail string, body []byte)
 
 type typeSpec struct {
-	name    string            // compiled type name
-	target  string            // name of the instance under test
+	name    string                  // compiled type name
+	target  string                  // name of the instance under test
 	setup   func(root string) error // create instances on the (open) root
 	content func(uuid string) error // write the fixture content at an open node (after ingest, when ingest is set)
 	// ingest, when set, is the part of the content that must be written on every node of the fixture before
 	// the first label-mapping operation happens anywhere in the repo (see findings.go, note N1): the twins
 	// of such a type are prepared in advance.
 	ingest func(uuid string) error
-	reads   func() []readReq  // versioned-content read list
-	valid   map[string]validFn
+	reads  func() []readReq // versioned-content read list
+	valid  map[string]validFn
 }
 
 const edge = 16 // block edge of every volume instance of the fixtures
@@ -172,7 +172,7 @@ func lmIngest(name string) func(uuid string) error {
 func lmContent(name string) func(uuid string) error {
 	return func(uuid string) error {
 		l := lmdrive.LM{Name: name, G: lmGeom}
-		_, r := l.Merge(uuid, 3, []uint64{4})
+		r := settledOK(func() drive.Resp { _, r := l.Merge(uuid, 3, []uint64{4}); return r })
 		if err := okOrErr(r, "labelmap merge"); err != nil {
 			return err
 		}
@@ -288,7 +288,10 @@ func annReads(name string) []readReq {
 }
 
 func annValid() map[string]validFn {
-	pos := func(i int) string { p := annPositions[pick(i, len(annPositions))]; return fmt.Sprintf("%d_%d_%d", p[0], p[1], p[2]) }
+	pos := func(i int) string {
+		p := annPositions[pick(i, len(annPositions))]
+		return fmt.Sprintf("%d_%d_%d", p[0], p[1], p[2])
+	}
 	return map[string]validFn{
 		"elements": func(q sweepReq) (string, []byte) {
 			p := annPositions[pick(q.A, len(annPositions))]
@@ -469,11 +472,17 @@ func njSpec() *typeSpec {
 				ks := []string{njKeys[pick(q.A, len(njKeys))]}
 				return "?u=user2", kvProto(ks, func(i int) []byte { return []byte(fmt.Sprintf(`{"bodyid":%s,"m":%d}`, ks[i], pick(q.B, 5))) })
 			},
-			"json_schema":  func(q sweepReq) (string, []byte) { return "", []byte(`{"type":"object","properties":{"bodyid":{"type":"integer"}}}`) },
-			"schema":       func(q sweepReq) (string, []byte) { return "", []byte(fmt.Sprintf(`{"fields":["a","n","x%d"]}`, pick(q.A, 3))) },
-			"schema_batch": func(q sweepReq) (string, []byte) { return "", []byte(fmt.Sprintf(`{"batch":["n","x%d"]}`, pick(q.A, 3))) },
-			"query":        func(q sweepReq) (string, []byte) { return "", []byte(`{"a":"v1"}`) },
-			"tags":         func(q sweepReq) (string, []byte) { return "", []byte(`{"x":"y"}`) },
+			"json_schema": func(q sweepReq) (string, []byte) {
+				return "", []byte(`{"type":"object","properties":{"bodyid":{"type":"integer"}}}`)
+			},
+			"schema": func(q sweepReq) (string, []byte) {
+				return "", []byte(fmt.Sprintf(`{"fields":["a","n","x%d"]}`, pick(q.A, 3)))
+			},
+			"schema_batch": func(q sweepReq) (string, []byte) {
+				return "", []byte(fmt.Sprintf(`{"batch":["n","x%d"]}`, pick(q.A, 3)))
+			},
+			"query": func(q sweepReq) (string, []byte) { return "", []byte(`{"a":"v1"}`) },
+			"tags":  func(q sweepReq) (string, []byte) { return "", []byte(`{"x":"y"}`) },
 		},
 	}
 }
@@ -570,13 +579,22 @@ func lszSpec() *typeSpec {
 	}
 }
 
-func labelblkSpec() *typeSpec {
+func labelblkSpec(zeroAtSetup bool) *typeSpec {
 	name := "lb"
 	return &typeSpec{
 		name: "labelblk", target: name,
-		setup: func(root string) error { return drive.NewInstance(root, "labelblk", name, bsCfg) },
+		setup: func(root string) error {
+			if err := drive.NewInstance(root, "labelblk", name, bsCfg); err != nil {
+				return err
+			}
+			if zeroAtSetup {
+				return labelblkZero(root, name)
+			}
+			return nil
+		},
 		content: func(uuid string) error {
-			r := drive.Post("node/"+uuid+"/"+name+"/raw/0_1_2/32_32_32/0_0_0", u64bytes(labelVolume()))
+			// (the root already holds background voxels over the whole extent, see labelblkZero: an overwrite)
+			r := drive.Post("node/"+uuid+"/"+name+"/raw/0_1_2/32_32_32/0_0_0?mutate=true", u64bytes(labelVolume()))
 			settle()
 			return okOrErr(r, "labelblk POST raw")
 		},
@@ -601,8 +619,18 @@ func labelblkSpec() *typeSpec {
 	}
 }
 
+// labelblkZero writes background voxels over the whole fixture extent on the root.  Every later write of the
+// case then stays inside the advertised extents, so imageblk's background PostExtents no longer re-serialises
+// the repo (datastore.SaveDataByVersion gob-encodes every instance) while labelvol's sync goroutine updates its
+// MaxLabel map: that unsynchronised pair is a process-killing race of the code under test (findings.go, N3).
+func labelblkZero(root, name string) error {
+	r := drive.Post("node/"+root+"/"+name+"/raw/0_1_2/32_32_32/0_0_0", make([]byte, 8*32*32*32))
+	settle()
+	return okOrErr(r, "labelblk POST raw (background)")
+}
+
 func labelvolSpec() *typeSpec {
-	lb := labelblkSpec()
+	lb := labelblkSpec(false) // (the background write follows the syncs below)
 	name := "lv"
 	return &typeSpec{
 		name: "labelvol", target: name,
@@ -616,7 +644,10 @@ func labelvolSpec() *typeSpec {
 			if err := setSync(root, name, "lb"); err != nil {
 				return err
 			}
-			return setSync(root, "lb", name)
+			if err := setSync(root, "lb", name); err != nil {
+				return err
+			}
+			return labelblkZero(root, "lb")
 		},
 		content: lb.content,
 		reads: func() []readReq {
@@ -635,11 +666,15 @@ func labelvolSpec() *typeSpec {
 				m := bodies[pick(q.A+1+pick(q.B, 5), 6)]
 				return "", u64list(t, m)
 			},
-			"split":        func(q sweepReq) (string, []byte) { return "/5", lmdrive.EncodeRuns(splitRuns(q.A)) },
-			"split-coarse": func(q sweepReq) (string, []byte) { return "/5", lmdrive.EncodeRuns([]lmdrive.Run{{X: 0, Y: 0, Z: 1, N: 1}}) },
-			"resync":       func(q sweepReq) (string, []byte) { return "/5", lmdrive.EncodeRuns([]lmdrive.Run{{X: 0, Y: 0, Z: 1, N: 2}}) },
-			"area":         func(q sweepReq) (string, []byte) { return fmt.Sprintf("/%d/16_16_16/0_0_0", 1+pick(q.A, 2)), nil },
-			"nextlabel":    func(q sweepReq) (string, []byte) { return "", nil },
+			"split": func(q sweepReq) (string, []byte) { return "/5", lmdrive.EncodeRuns(splitRuns(q.A)) },
+			"split-coarse": func(q sweepReq) (string, []byte) {
+				return "/5", lmdrive.EncodeRuns([]lmdrive.Run{{X: 0, Y: 0, Z: 1, N: 1}})
+			},
+			"resync": func(q sweepReq) (string, []byte) {
+				return "/5", lmdrive.EncodeRuns([]lmdrive.Run{{X: 0, Y: 0, Z: 1, N: 2}})
+			},
+			"area":      func(q sweepReq) (string, []byte) { return fmt.Sprintf("/%d/16_16_16/0_0_0", 1+pick(q.A, 2)), nil },
+			"nextlabel": func(q sweepReq) (string, []byte) { return "", nil },
 		},
 	}
 }
@@ -679,10 +714,12 @@ func labelarraySpec() *typeSpec {
 				m := bodies[pick(q.A+1+pick(q.B, 5), 6)]
 				return "", u64list(t, m)
 			},
-			"split":        func(q sweepReq) (string, []byte) { return "/5", lmdrive.EncodeRuns(splitRuns(q.A)) },
-			"split-coarse": func(q sweepReq) (string, []byte) { return "/5", lmdrive.EncodeRuns([]lmdrive.Run{{X: 0, Y: 0, Z: 1, N: 1}}) },
-			"nextlabel":    func(q sweepReq) (string, []byte) { return "", nil },
-			"resolution":   func(q sweepReq) (string, []byte) { return "", []byte(`[4,4,4]`) },
+			"split": func(q sweepReq) (string, []byte) { return "/5", lmdrive.EncodeRuns(splitRuns(q.A)) },
+			"split-coarse": func(q sweepReq) (string, []byte) {
+				return "/5", lmdrive.EncodeRuns([]lmdrive.Run{{X: 0, Y: 0, Z: 1, N: 1}})
+			},
+			"nextlabel":  func(q sweepReq) (string, []byte) { return "", nil },
+			"resolution": func(q sweepReq) (string, []byte) { return "", []byte(`[4,4,4]`) },
 		},
 	}
 }
@@ -737,7 +774,9 @@ func tarsvSpec() *typeSpec {
 			"supervoxel": func(q sweepReq) (string, []byte) {
 				return fmt.Sprintf("/%d", 1+pick(q.A, 6)), []byte(fmt.Sprintf("new-%d", pick(q.B, 5)))
 			},
-			"load": func(q sweepReq) (string, []byte) { return "", tarBody([]int{1 + pick(q.A, 6), 1 + pick(q.B, 6)}, "dat") },
+			"load": func(q sweepReq) (string, []byte) {
+				return "", tarBody([]int{1 + pick(q.A, 6), 1 + pick(q.B, 6)}, "dat")
+			},
 		},
 	}
 }
@@ -803,7 +842,7 @@ func specFor(typename string) *typeSpec {
 	case "labelsz":
 		return lszSpec()
 	case "labelblk":
-		return labelblkSpec()
+		return labelblkSpec(true)
 	case "labelvol":
 		return labelvolSpec()
 	case "labelarray":
